@@ -1,9 +1,57 @@
 import RscelModel.Lemmas.Seq2
 import RscelModel.Theorems.C05Compile
 /-
-C05 / C09 — compiler correctness on the larger fragment `Frag2` (Model/Spec.lean).
+C05 / C09 — compiler correctness on the larger fragment `Frag2` (Model/Spec.lean), by level of the
+call-depth budget.
 
-(header completed at the end of the file's development; see the theorems section)
+`Frag2 B` = the fragment of `C05Compile` (literals, identifiers, parentheses, list literals, `!`/`-` runs, the
+14 binary operators with `||`/`&&` chains, `?:`, `match` with `_`/comparison patterns) plus
+  * map literals `{k: v, …}` (folded by `foldMap` or built by MKDICT; last duplicate key wins, a key that
+    is not a string gives the Value failure of the VM),
+  * index `o[i]` and field access `o.name` (folded or not) on any value of the fragment,
+  * calls by name `f(a, …)` and by method `o.f(a, …)` of built-in functions and type constructors
+    (`T(a)`), folded by `check_for_const` or not,
+  * f-strings (segments through `string(·)`, then FMT),
+  * the macros `has`, `coalesce`, `all`, `exists`, `exists_one`, `filter`, `map` (two forms), `reduce` with
+    bodies from the fragment,
+  * `match` type patterns naming a type of the type table (`case int:` is `type(s) == int`).
+
+Main statements (all for every `B` with `BuiltinsOK B`: built-ins map data to data; every environment with
+`StdEnv B env`: no stored programs, no functions bound by the caller, parameters bound to data — no
+identifier or code block inside — and not named like a built-in function or macro):
+  `compile_correct2_partial`  `depth e ≤ b`, `b < maxDepth` ⊢ the emitted code `Runs` (Lemmas/Seq.lean) to
+                              `evalSpec B e env` with `rec := runAt B b`: nested blocks (arguments, macro
+                              bodies, f-string segments) are run by the callback one level down, and the
+                              statement is proved for all levels at once (`good_all`, induction on the tree
+                              with the level and the environment universally quantified inside).
+  `run_level_partial`         `runAt B (b+1) env code true log = outOf (evalSpec B e env) log`.
+  `exec_correct2_partial`     `execProg` of the compiled program, when `depth e < maxDepth`.
+  `fold_sound2_partial`       every constant the compiler computed — `check_for_const` included — is
+                              `evalSpec B e env`;  `folded_env_irrelevant`.
+  `fold_call_sound_partial`   the C09 statement for calls: a closed clock-free call that `check_for_const`
+                              folded to `v`: the unfolded CALL sequence yields `v` at run time in every
+                              standard environment.
+  corollaries                 `call_builtin` (arguments left to right, then the function),
+                              `failing_arg_fails_call`, `call_ctor`, `has_spec_compiled`,
+                              `has_true_of_value`, `has_false_of_absent`, `coalesce_laziness`,
+                              `index_spec`, `field_spec`, `map_literal_spec`, `evalSpec_data`.
+
+How the fold case is proved: the compile-time run is the same theorem at level `maxDepth - 1` in the
+environment `compileEnv`; `evalSpec` does not distinguish environments that agree on the identifiers of
+a closed tree (`Irr`, `agree_of_closed`, carried through the same induction).
+
+STILL NOT covered (`…_partial`):
+  * a call whose callee is not a name: `(e)(..)`, `e[i](..)`, `f(..)(..)`;
+  * a member access `o.f` that is not called when `f` names a built-in function or macro (the VM leaves a
+    bound method on the stack; it is no value);
+  * `has` / `coalesce` in method position (`o.has(..)`), loop variables (and parameters) that have the
+    name of a built-in function or macro, type patterns naming no table type (`list`, `object`, `null`):
+    for the first two `check_for_const` of the modelled tree folds wrongly (two defects found by this
+    proof: `dyn([[1].has(1)])`, `[1].map(size, dyn([size]))`), see `methodOK` / `loopVarOK` in Model/Spec.lean;
+  * a macro whose loop-variable argument is not an identifier;
+  * functions bound by the caller and hence call logs (the log is shown to stay as it is), identifiers
+    naming stored programs, environments without bindings;
+  * `BuiltinsOK` is a hypothesis — it is not proved here for the full table `stdBuiltins`.
 -/
 set_option autoImplicit false
 namespace Rscel
@@ -1330,7 +1378,7 @@ theorem macro_ok (hB : BuiltinsOK B) (name : Str) (args : List Ast) (hargs : ∀
 theorem callVal_irr {ids ids' : List Str} {kindf : Env → CallKind} {name : Str} {args : List Ast}
     (hk : ∀ e1 e2, AgreeOn B ids' e1 e2 → kindf e1 = kindf e2)
     (hargs : ∀ a ∈ args, Irr B (identsOf a) (evalSpec B a)) (hsub : ∀ n ∈ identsOfList args, n ∈ ids')
-    (hids : ∀ n ∈ ids, n ∈ ids') : Irr B ids' (callVal B kindf name args) := by
+    (_hids : ∀ n ∈ ids, n ∈ ids') : Irr B ids' (callVal B kindf name args) := by
   intro e1 e2 h
   unfold callVal
   rw [hk e1 e2 h, evalSpecList_irr hargs hsub h]
@@ -1783,6 +1831,506 @@ theorem good_all (hB : BuiltinsOK B) {e : Ast} (h : Frag2 B e) : Good B e := by
       irr_match sp s cases ihs.2 (fun a b c d => (iharm a b c d).2) (fun a b c d e f g => (ihcmp a b c d e f g).2) htyp⟩
   | member sp p chain _ _ _ _ _ _ _ hshape ihpar ihlist ihmk ihmv ihseg ihargs ihidx =>
     exact good_member hB sp p chain ihpar ihlist ihmk ihmv ihseg ihargs ihidx hshape
+
+end
+
+/-! ### the theorems -/
+
+section
+variable {B : Builtins} {env : Env}
+
+/-- **Compiler correctness on the larger fragment, by level of the depth budget.**  For a tree `e` of `Frag2`,
+    at a level `b` of the call-depth budget that covers the nesting depth of `e` (`depth e ≤ b`: call
+    arguments, macro bodies and f-string segments are nested blocks, run through the callback of the next
+    level `runAt B (b-1)`, …), the code emitted for `e` — constant-folded or not, `check_for_const` included —
+    placed anywhere, on any stack, reaches its end in at most `code.length` steps having pushed exactly one
+    entry, which denotes `evalSpec B e env`; the rest of the stack and the log are untouched. -/
+theorem compile_correct2_partial (hB : BuiltinsOK B) (henv : StdEnv B env) {e : Ast} (h : Frag2 B e) {b : Nat}
+    (hd : depth e ≤ b) (hb : b < maxDepth) :
+    Runs B (runAt B b) (runFresh B) env (compileX B e).cp.toCode (evalSpec B e env) :=
+  ((good_all hB h).1 b env henv hd hb).1.runs
+
+/-- The value of a tree of the fragment is data (no identifier, no code block, at any depth). -/
+theorem evalSpec_data (hB : BuiltinsOK B) (henv : StdEnv B env) {e : Ast} (h : Frag2 B e) (hd : depth e < maxDepth) :
+    Data (evalSpec B e env) :=
+  ((good_all hB h).1 (maxDepth - 1) env henv (by omega) (by unfold maxDepth; omega)).2
+
+/-- **One level up**: the block of `e` run by `run_raw` with `b + 1` levels left (`rec := runAt B b`). -/
+theorem run_level_partial (hB : BuiltinsOK B) (henv : StdEnv B env) {e : Ast} (h : Frag2 B e) {b : Nat}
+    (hd : depth e ≤ b) (hb : b < maxDepth) (log : Log) :
+    runAt B (b + 1) env (compileX B e).cp.toCode true log = outOf (evalSpec B e env) log :=
+  runAt_of_runs henv.noProgs b (compile_correct2_partial hB henv h hd hb) log
+
+/-- **End to end.**  Executing the compiled program yields `evalSpec B e env` — a failure value as a failure —
+    and an empty call log, when the nesting depth of `e` is within the budget of `run_raw`. -/
+theorem exec_correct2_partial (hB : BuiltinsOK B) (henv : StdEnv B env) {e : Ast} (h : Frag2 B e)
+    (hd : depth e < maxDepth) : run B env e = outOf (evalSpec B e env) [] := by
+  show runAt B (31 + 1) env (compileX B e).cp.toCode true [] = _
+  exact run_level_partial hB henv h (by unfold maxDepth at hd; omega) (by decide) []
+
+/-- **Folding is sound on the larger fragment** (the C09 statement): whenever the compiler replaces a tree by a
+    constant — by operator folding, list / map / member folding, or by evaluating a closed clock-free call at
+    compile time (`check_for_const`) — that constant is the value of the tree in every standard environment. -/
+theorem fold_sound2_partial (hB : BuiltinsOK B) (henv : StdEnv B env) {e : Ast} (h : Frag2 B e)
+    (hd : depth e < maxDepth) {v : Val} (hc : compile B e = .const v) : v = evalSpec B e env :=
+  (((good_all hB h).1 (maxDepth - 1) env henv (by omega) (by unfold maxDepth; omega)).1.const v hc).1
+
+/-- … so the folded program and the value are the same in any two standard environments: nothing an
+    environment binds can be observed through a folded tree. -/
+theorem folded_env_irrelevant (hB : BuiltinsOK B) {env1 env2 : Env} (h1 : StdEnv B env1) (h2 : StdEnv B env2)
+    {e : Ast} (h : Frag2 B e) (hd : depth e < maxDepth) {v : Val} (hc : compile B e = .const v) :
+    run B env1 e = run B env2 e := by
+  rw [exec_correct2_partial hB h1 h hd, exec_correct2_partial hB h2 h hd,
+    ← fold_sound2_partial hB h1 h hd hc, ← fold_sound2_partial hB h2 h hd hc]
+
+/-- A call `f(a₁, …, aₙ)` (`srcArgs` in source order). -/
+def callE (f : String) (srcArgs : List Ast) : Ast :=
+  .member sp0 (.ident sp0 f.toList) [.call sp0 srcArgs.reverse]
+
+/-- The unfolded code of `f(args)` (`args` as the tree stores them). -/
+def callCode (B : Builtins) (f : Str) (args : List Ast) : List Instr :=
+  compileArgs B args ++ [.push (.ident f)] ++ [.call args.length]
+
+/-- **A folded call is the run-time call** (C09 for calls).  When `check_for_const` evaluates the call
+    `f(args)` at compile time and keeps the constant `v`, then in every standard environment the *unfolded*
+    call sequence, run by `run_raw`, yields exactly `v` (and leaves the log alone): pre-evaluating the call
+    is invisible. -/
+theorem fold_call_sound_partial (hB : BuiltinsOK B) (henv : StdEnv B env) {f : Str} {args : List Ast}
+    (hargs : ∀ a ∈ args, Frag2 B a) (hshape : macroShape B f args = true) {b : Nat}
+    (hd : depthArgs args ≤ b) (hb : b < maxDepth) {v : Val}
+    (hfold : checkForConst B ([f] ++ identsOfList args) (callCode B f args) = .const v) (log : Log) :
+    runAt B (b + 1) env (callCode B f args) true log = outOf v log ∧
+      v = callVal B (fun env => fnKind B env f) f args env := by
+  have hg : ∀ a ∈ args, Good B a := fun a ha => good_all hB (hargs a ha)
+  have hU := call_runs hB (calleeGood_ident (B := B) f) args (fun a ha => (hg a ha).1)
+    (macro_ok hB f args (fun a ha => (hg a ha).1) hshape)
+  have hirr' : Irr B ([f] ++ identsOfList args) (callVal B (fun env => fnKind B env f) f args) := by
+    apply callVal_irr (ids := [f])
+    · intro e1 e2 h; exact h.kind f (by simp)
+    · exact fun a ha => (hg a ha).2
+    · exact fun n hn => List.mem_append_right _ hn
+    · exact fun n hn => List.mem_append_left _ hn
+  have hcg := cgood_checkForConst hU hirr' b env henv (by omega) hb
+  have hv : v = callVal B (fun env => fnKind B env f) f args env := hcg.2.1 v hfold
+  refine ⟨?_, hv⟩
+  rw [hv]
+  exact runAt_of_runs henv.noProgs b (hU b env henv (by omega) hb).1 log
+
+/-! #### readable corollaries about calls -/
+
+theorem macroShape_nonmacro {name : Str} {args : List Ast} (h : defaultMacros.any (·.toList = name) = false) :
+    macroShape B name args = true := by
+  simp only [defaultMacros, List.any_cons, List.any_nil, Bool.or_false, Bool.or_eq_false_iff,
+    decide_eq_false_iff_not] at h
+  obtain ⟨_, h1, h2, h3, h4, h5, h6, _⟩ := h
+  unfold macroShape
+  rw [if_neg (fun hc => h6 hc.symm), if_neg (fun hc => h5 hc.symm), if_neg]
+  intro hc
+  simp only [Bool.or_eq_true, decide_eq_true_eq] at hc
+  rcases hc with ((hc | hc) | hc) | hc
+  · exact h1 hc.symm
+  · exact h2 hc.symm
+  · exact h3 hc.symm
+  · exact h4 hc.symm
+
+theorem isMacro_default_mode {env : Env} (hb : env.hasBinds = true) (hmode : env.compileMode = false) (name : Str) :
+    env.isMacro name = defaultMacros.any (·.toList = name) := by
+  unfold Env.isMacro
+  rw [hb, hmode]
+  rfl
+
+theorem frag_call {f : String} {srcArgs : List Ast} (hargs : ∀ a ∈ srcArgs, Frag2 B a)
+    (hshape : macroShape B f.toList srcArgs.reverse = true) : Frag2 B (callE f srcArgs) := by
+  refine .member _ _ _ (fun _ _ h => by cases h) (fun _ _ h => by cases h) (fun _ _ h => by cases h)
+    (fun _ _ h => by cases h) (fun _ _ h => by cases h) ?_ ?_ ?_
+  · intro sp' args hm a ha
+    simp only [List.mem_singleton, MOp.call.injEq] at hm
+    obtain ⟨_, rfl⟩ := hm
+    exact hargs a (List.mem_reverse.mp ha)
+  · intro sp' e hm; simp at hm
+  · simp [memberShape, hshape, opsShape]
+
+theorem evalSpec_callE (f : String) (srcArgs : List Ast) (env : Env) :
+    evalSpec B (callE f srcArgs) env =
+      callOf B (fnKind B env f.toList) f.toList (srcArgs.map (fun a => evalSpec B a env))
+        (fun this => evalSpecMacro B f.toList this srcArgs.reverse env) := by
+  unfold callE
+  rw [es_call, eso_nil, evalSpecList_eq, List.map_reverse, List.reverse_reverse]
+
+/-- **A call of a built-in function evaluates its arguments left to right and applies the function**;
+    **a failing argument fails the call** with the failure of the first (leftmost) failing argument. -/
+theorem call_builtin (hB : BuiltinsOK B) (henv : StdEnv B env) {f : String} {g : Val → List Val → Val}
+    (hf : B.func f.toList = some g) {srcArgs : List Ast} (hargs : ∀ a ∈ srcArgs, Frag2 B a)
+    (hshape : macroShape B f.toList srcArgs.reverse = true) (hd : depth (callE f srcArgs) < maxDepth) :
+    run B env (callE f srcArgs) = outOf (applyArgs (g .null) (srcArgs.map (fun a => evalSpec B a env))) [] := by
+  rw [exec_correct2_partial hB henv (frag_call hargs hshape) hd, evalSpec_callE]
+  simp only [fnKind, hf, callOf]
+
+theorem failing_arg_fails_call (hB : BuiltinsOK B) (henv : StdEnv B env) {f : String} {g : Val → List Val → Val}
+    (hf : B.func f.toList = some g) {srcArgs : List Ast} (hargs : ∀ a ∈ srcArgs, Frag2 B a)
+    (hshape : macroShape B f.toList srcArgs.reverse = true) (hd : depth (callE f srcArgs) < maxDepth)
+    {k : ErrKind} (hk : firstErr (srcArgs.map (fun a => evalSpec B a env)) = some k) :
+    run B env (callE f srcArgs) = { res := .error (.err k), log := [] } := by
+  rw [call_builtin hB henv hf hargs hshape hd, applyArgs, hk]; rfl
+
+/-- A type constructor call `T(a₁, …)` (no function of that name): the same rule with `B.ctor`. -/
+theorem call_ctor (hB : BuiltinsOK B) (henv : StdEnv B env) {f : String} {tn : Str}
+    (hf : B.func f.toList = none) (ht : typeByName f.toList = some (.type tn)) {srcArgs : List Ast}
+    (hargs : ∀ a ∈ srcArgs, Frag2 B a) (hd : depth (callE f srcArgs) < maxDepth) :
+    run B env (callE f srcArgs) =
+      outOf (applyArgs (B.ctor tn) (srcArgs.map (fun a => evalSpec B a env))) [] := by
+  have hnm : env.isMacro f.toList = false := by
+    cases hm : env.isMacro f.toList
+    · rfl
+    · have := typeName_not_macro ht; rw [isMacro_default hm] at this; cases this
+  have hshape : macroShape B f.toList srcArgs.reverse = true := macroShape_nonmacro (typeName_not_macro ht)
+  rw [exec_correct2_partial hB henv (frag_call hargs hshape) hd, evalSpec_callE]
+  have hk : fnKind B env f.toList = .ctor tn := by
+    unfold fnKind
+    rw [hf]
+    simp only [hnm, Bool.false_eq_true, if_false, Env.getType, henv.binds, if_true, ht]
+  rw [hk]
+  rfl
+
+/-- `has(a)` on a compiled program: `true` when `a` yields a value, `false` when it fails with a Binding or
+    Attribute failure, and every other failure of `a` is the failure of `has(a)`. -/
+theorem has_spec_compiled (hB : BuiltinsOK B) (henv : StdEnv B env) (hf : B.func "has".toList = none)
+    (hmode : env.compileMode = false) {a : Ast} (ha : Frag2 B a) (hd : depth a + 1 < maxDepth) :
+    run B env (callE "has" [a]) = outOf (hasVal (evalSpec B a env)) [] := by
+  have hfr : Frag2 B (callE "has" [a]) := frag_call (by simpa using ha) (by simp [macroShape])
+  have hdd : depth (callE "has" [a]) < maxDepth := by
+    simp only [callE, depth, depthPrim, depthOps, depthArgs, List.reverse_cons, List.reverse_nil, List.nil_append]
+    omega
+  have hm : env.isMacro "has".toList = true := by
+    rw [isMacro_default_mode henv.binds hmode]; decide
+  rw [exec_correct2_partial hB henv hfr hdd, evalSpec_callE]
+  simp only [fnKind, hf, hm, if_true, callOf]
+  rw [if_neg (by decide), evalSpecMacro.eq_def]
+  simp
+
+theorem has_true_of_value (hB : BuiltinsOK B) (henv : StdEnv B env) (hf : B.func "has".toList = none)
+    (hmode : env.compileMode = false) {a : Ast} (ha : Frag2 B a) (hd : depth a + 1 < maxDepth) {v : Val}
+    (hv : (run B env a).res = .ok v) : run B env (callE "has" [a]) = { res := .ok (.bool true), log := [] } := by
+  rw [exec_correct2_partial hB henv ha (by omega)] at hv
+  obtain ⟨h1, h2⟩ := outOf_res_ok hv
+  rw [has_spec_compiled hB henv hf hmode ha hd]
+  cases hs : evalSpec B a env <;> first | rfl | exact absurd hs (h2 _)
+
+theorem has_false_of_absent (hB : BuiltinsOK B) (henv : StdEnv B env) (hf : B.func "has".toList = none)
+    (hmode : env.compileMode = false) {a : Ast} (ha : Frag2 B a) (hd : depth a + 1 < maxDepth)
+    (hv : (run B env a).res = .error (.err .binding) ∨ (run B env a).res = .error (.err .attribute)) :
+    run B env (callE "has" [a]) = { res := .ok (.bool false), log := [] } := by
+  rw [exec_correct2_partial hB henv ha (by omega)] at hv
+  rw [has_spec_compiled hB henv hf hmode ha hd]
+  rcases hv with hv | hv <;> obtain ⟨k, hk, hk'⟩ := outOf_res_err hv <;> cases hk' <;> rw [hk] <;> rfl
+
+theorem coalesceVal_skip (pre : List Val) (rest : List Val)
+    (hpre : ∀ v ∈ pre, v = .null ∨ v = .err .binding ∨ v = .err .attribute) :
+    coalesceVal (pre ++ rest) = coalesceVal rest := by
+  induction pre with
+  | nil => rfl
+  | cons v vs ih =>
+    have := ih (fun w hw => hpre w (List.mem_cons_of_mem _ hw))
+    rcases hpre v (List.mem_cons_self ..) with rfl | rfl | rfl <;> simpa [coalesceVal, absentKind] using this
+
+theorem coalesceVal_pick {v : Val} (post : List Val) (hn : v ≠ .null)
+    (hb : v ≠ .err .binding) (ha : v ≠ .err .attribute) : coalesceVal (v :: post) = v := by
+  cases v <;> simp_all [coalesceVal]
+  rename_i k
+  cases k <;> simp_all [absentKind]
+
+/-- `coalesce(…, a, …)` on a compiled program: when every argument before `a` is `null` or fails with a
+    Binding/Attribute failure and `a` is neither, the result is that of `a` — whatever follows `a`
+    (failing arguments included) plays no role. -/
+theorem coalesce_laziness (hB : BuiltinsOK B) (henv : StdEnv B env) (hf : B.func "coalesce".toList = none)
+    (hmode : env.compileMode = false) {pre post : List Ast} {a : Ast}
+    (hargs : ∀ x ∈ pre ++ a :: post, Frag2 B x) (hd : depth (callE "coalesce" (pre ++ a :: post)) < maxDepth)
+    (hpre : ∀ x ∈ pre, evalSpec B x env = .null ∨ evalSpec B x env = .err .binding ∨
+      evalSpec B x env = .err .attribute)
+    (hn : evalSpec B a env ≠ .null) (hbn : evalSpec B a env ≠ .err .binding)
+    (han : evalSpec B a env ≠ .err .attribute) :
+    run B env (callE "coalesce" (pre ++ a :: post)) = outOf (evalSpec B a env) [] := by
+  have hfr : Frag2 B (callE "coalesce" (pre ++ a :: post)) := frag_call hargs (by simp [macroShape])
+  have hm : env.isMacro "coalesce".toList = true := by
+    rw [isMacro_default_mode henv.binds hmode]; decide
+  rw [exec_correct2_partial hB henv hfr hd, evalSpec_callE]
+  simp only [fnKind, hf, hm, if_true, callOf, List.map_append, List.map_cons]
+  rw [coalesceVal_skip _ _ (by
+    intro v hv
+    obtain ⟨x, hx, rfl⟩ := List.mem_map.mp hv
+    exact hpre x hx), coalesceVal_pick _ hn hbn han]
+
+end
+
+/-! ### readable corollaries about map literals, index and field access -/
+
+section
+variable {B : Builtins} {env : Env}
+
+/-- `o[i]` with both in the fragment: `index` of the two values (failing operands propagate, `index`). -/
+theorem index_spec (sp sp' : Span) (p : Prim) (i : Ast) (env : Env)
+    (h : ∀ s f s' args rest, p = .ident s f → [MOp.index sp' i] = .call s' args :: rest → False := by
+      intro _ _ _ _ _ _ h; cases h) :
+    evalSpec B (.member sp p [.index sp' i]) env = index (evalSpecPrim B p env) (evalSpec B i env) := by
+  rw [es_member _ _ _ _ h, eso_index, eso_nil]
+
+/-- `o.name` for a name that is no function or macro: the field (`fieldOf`). -/
+theorem field_spec (sp sp' sp'' : Span) (p : Prim) (name : Str) (env : Env) :
+    evalSpec B (.member sp p [.access sp' sp'' name]) env = fieldOf (evalSpecPrim B p env) name := by
+  rw [es_member _ _ _ _ (by intro _ _ _ _ _ _ h; cases h), eso_field _ _ _ _ _ _ (by intro _ _ _ h; cases h), eso_nil]
+
+/-- A map literal with string keys is the map of its entries, later entries winning (`Map.ofList`);
+    a key that is not a string makes it a Value failure. -/
+theorem map_literal_spec (sp sp' : Span) (inits : List MInit) (env : Env) :
+    evalSpec B (.member sp (.map sp' inits) []) env =
+      mkMap (inits.map (fun i => (evalSpec B (initKey i) env, evalSpec B (initVal i) env))) := by
+  rw [es_member _ _ _ _ (by intro _ _ _ _ _ h; cases h), eso_nil, evalSpecPrim, evalSpecInits_eq]
+
+theorem mkMap_strs (es : List (Str × Val)) : mkMap (es.map (fun e => (.str e.1, e.2))) = .map (Map.ofList es) := by
+  have : strKeys (es.map (fun e => (Val.str e.1, e.2))) = some es := by
+    induction es with
+    | nil => rfl
+    | cons e es ih => simp [strKeys, ih]
+  simp [mkMap, this]
+
+end
+
+/-! ### non-vacuity: the hypotheses of the theorems are satisfiable -/
+
+section
+
+/-- A small table of built-ins: `size` as function and method, the constructors `string` and `type`. -/
+def demoB : Builtins where
+  func name :=
+    if name = "size".toList then
+      some fun this args =>
+        match this, args with
+        | .null, [.list l] => .uint l.length
+        | .list l, [] => .uint l.length
+        | _, _ => .err .argument
+    else none
+  ctor tn args :=
+    if tn = "string".toList then
+      (match args with
+       | [.str s] => .str s
+       | [.int _] => .str "int".toList
+       | _ => .err .argument)
+    else if tn = "type".toList then
+      (match args with
+       | [v] => v.asType
+       | _ => .err .argument)
+    else .err .runtime
+
+theorem demoB_ok : BuiltinsOK demoB := by
+  constructor
+  · intro name f this args hf _ _
+    simp only [demoB] at hf
+    split at hf
+    · cases hf
+      dsimp only
+      split <;> rfl
+    · cases hf
+  · intro tn args _
+    simp only [demoB]
+    split
+    · split <;> rfl
+    · split
+      · split <;> rfl
+      · rfl
+
+theorem std0 : StdEnv demoB env0 :=
+  { noProgs := np0, binds := rfl, noUser := rfl,
+    params := fun n v h => by simp [Env.getParam, env0, lookup] at h,
+    noShadow := fun _ _ => rfl }
+
+def strLit (s : String) : Ast := .member sp0 (.str sp0 s.toList) []
+def listLit (es : List Ast) : Ast := .member sp0 (.list sp0 es) []
+
+theorem frag_lit (i : Int) : Frag2 demoB (lit i) :=
+  .member _ _ _ (fun _ _ h => by cases h) (fun _ _ h => by cases h) (fun _ _ h => by cases h)
+    (fun _ _ h => by cases h) (fun _ _ h => by cases h) (fun _ _ h => by cases h) (fun _ _ h => by cases h) rfl
+theorem frag_var (n : String) : Frag2 demoB (var n) :=
+  .member _ _ _ (fun _ _ h => by cases h) (fun _ _ h => by cases h) (fun _ _ h => by cases h)
+    (fun _ _ h => by cases h) (fun _ _ h => by cases h) (fun _ _ h => by cases h) (fun _ _ h => by cases h) rfl
+theorem frag_str (s : String) : Frag2 demoB (strLit s) :=
+  .member _ _ _ (fun _ _ h => by cases h) (fun _ _ h => by cases h) (fun _ _ h => by cases h)
+    (fun _ _ h => by cases h) (fun _ _ h => by cases h) (fun _ _ h => by cases h) (fun _ _ h => by cases h) rfl
+theorem frag_list {es : List Ast} (h : ∀ e ∈ es, Frag2 demoB e) : Frag2 demoB (listLit es) :=
+  .member _ _ _ (fun _ _ h => by cases h) (fun _ es' h' e he => by cases h'; exact h e he) (fun _ _ h => by cases h)
+    (fun _ _ h => by cases h) (fun _ _ h => by cases h) (fun _ _ h => by cases h) (fun _ _ h => by cases h) rfl
+
+/-- `{"a": [1, x]}["a"][0]` -/
+def mapIdx : Ast :=
+  .member sp0 (.map sp0 [.mk sp0 (strLit "a") (listLit [lit 1, var "x"])])
+    [.index sp0 (strLit "a"), .index sp0 (lit 0)]
+
+theorem frag_mapIdx : Frag2 demoB mapIdx := by
+  refine .member _ _ _ (fun _ _ h => by cases h) (fun _ _ h => by cases h) ?_ ?_ (fun _ _ h => by cases h) ?_ ?_ rfl
+  · intro sp' inits h sp'' k v hm
+    cases h
+    simp only [List.mem_singleton, MInit.mk.injEq] at hm
+    obtain ⟨_, rfl, _⟩ := hm
+    exact frag_str _
+  · intro sp' inits h sp'' k v hm
+    cases h
+    simp only [List.mem_singleton, MInit.mk.injEq] at hm
+    obtain ⟨_, _, rfl⟩ := hm
+    exact frag_list (by
+      intro e he
+      simp only [List.mem_cons, List.mem_nil_iff, or_false] at he
+      rcases he with rfl | rfl
+      · exact frag_lit _
+      · exact frag_var _)
+  · intro sp' args hm; simp at hm
+  · intro sp' e hm
+    simp only [List.mem_cons, MOp.index.injEq, List.mem_nil_iff, or_false] at hm
+    rcases hm with ⟨_, rfl⟩ | ⟨_, rfl⟩
+    · exact frag_str _
+    · exact frag_lit _
+
+-- compile_correct2_partial / exec_correct2_partial / evalSpec_data: `{"a": [1, x]}["a"][0]` is 1
+example : run demoB env0 mapIdx = { res := .ok (.int 1), log := [] } := by
+  rw [exec_correct2_partial demoB_ok std0 frag_mapIdx (by decide)]; rfl
+example : Data (evalSpec demoB mapIdx env0) := evalSpec_data demoB_ok std0 frag_mapIdx (by decide)
+-- run_level_partial: the same block with two levels left
+example : runAt demoB 2 env0 (compileX demoB mapIdx).cp.toCode true [] = { res := .ok (.int 1), log := [] } := by
+  rw [run_level_partial demoB_ok std0 frag_mapIdx (b := 1) (by decide) (by decide)]; rfl
+
+-- fold_sound2_partial / folded_env_irrelevant: `1 + 2` is folded to 3
+theorem frag_add : Frag2 demoB (.bin sp0 .add (lit 1) (lit 2)) := .bin _ _ _ _ (frag_lit 1) (frag_lit 2)
+theorem add_folded : compile demoB (.bin sp0 .add (lit 1) (lit 2)) = .const (.int 3) := by
+  simp [compile, compileX, compilePrim, compileOps, lit]; rfl
+example : evalSpec demoB (.bin sp0 .add (lit 1) (lit 2)) env0 = .int 3 :=
+  (fold_sound2_partial demoB_ok std0 frag_add (by decide) add_folded).symm
+example : run demoB env0 (.bin sp0 .add (lit 1) (lit 2)) = run demoB (env0.bind "y".toList (.int 5)) (.bin sp0 .add (lit 1) (lit 2)) :=
+  folded_env_irrelevant demoB_ok std0 (std0.bind (x := "y".toList) (v := .int 5) (by decide) rfl) frag_add (by decide) add_folded
+
+-- call_builtin / failing_arg_fails_call: `size([1, 2])` is 2, `size(x)` with `x` unbound fails with that Binding failure
+theorem size_func : demoB.func "size".toList = some (fun this args =>
+    match this, args with
+    | .null, [.list l] => .uint l.length
+    | .list l, [] => .uint l.length
+    | _, _ => .err .argument) := by simp [demoB]
+
+example : run demoB env0 (callE "size" [listLit [lit 1, lit 2]]) = { res := .ok (.uint 2), log := [] } := by
+  rw [call_builtin demoB_ok std0 size_func
+    (by intro a ha; simp only [List.mem_singleton] at ha; subst ha
+        exact frag_list (by intro e he; simp only [List.mem_cons, List.mem_nil_iff, or_false] at he
+                            rcases he with rfl | rfl <;> exact frag_lit _))
+    (by simp [macroShape]) (by decide)]
+  rfl
+example : run demoB env0 (callE "size" [var "x"]) = { res := .error (.err .binding), log := [] } :=
+  failing_arg_fails_call demoB_ok std0 size_func
+    (by intro a ha; simp only [List.mem_singleton] at ha; subst ha; exact frag_var _)
+    (by simp [macroShape]) (by decide) (k := .binding) rfl
+
+-- call_ctor: `string(5)`
+example : run demoB env0 (callE "string" [lit 5]) = { res := .ok (.str "int".toList), log := [] } := by
+  rw [call_ctor demoB_ok std0 (f := "string") (tn := "string".toList) (by simp [demoB]) (by rfl)
+    (by intro a ha; simp only [List.mem_singleton] at ha; subst ha; exact frag_lit _) (by decide)]
+  rfl
+
+-- has_true_of_value / has_false_of_absent / has_spec_compiled: `has(1)`, `has(x)`
+theorem has_none : demoB.func "has".toList = none := by simp [demoB]
+theorem run_lit2 (i : Int) : (run demoB env0 (lit i)).res = .ok (.int i) := by
+  rw [exec_correct2_partial demoB_ok std0 (frag_lit i) (by simp [lit, depth, depthPrim, depthOps, maxDepth])]; rfl
+theorem run_unbound2 : (run demoB env0 (var "x")).res = .error (.err .binding) := by
+  rw [exec_correct2_partial demoB_ok std0 (frag_var "x") (by decide)]; rfl
+example : run demoB env0 (callE "has" [lit 1]) = { res := .ok (.bool true), log := [] } :=
+  has_true_of_value demoB_ok std0 has_none rfl (frag_lit 1) (by decide) (run_lit2 1)
+example : run demoB env0 (callE "has" [var "x"]) = { res := .ok (.bool false), log := [] } :=
+  has_false_of_absent demoB_ok std0 has_none rfl (frag_var "x") (by decide) (Or.inl run_unbound2)
+
+-- coalesce_laziness: `coalesce(x, 7, y)` is 7 — the unbound `y` behind it plays no role
+example : run demoB env0 (callE "coalesce" ([var "x"] ++ lit 7 :: [var "y"])) = { res := .ok (.int 7), log := [] } := by
+  rw [coalesce_laziness demoB_ok std0 (by simp [demoB]) rfl
+    (by intro a ha
+        simp only [List.cons_append, List.nil_append, List.mem_cons, List.mem_nil_iff, or_false] at ha
+        rcases ha with rfl | rfl | rfl
+        · exact frag_var _
+        · exact frag_lit _
+        · exact frag_var _)
+    (by decide)
+    (by intro a ha; simp only [List.mem_singleton] at ha; subst ha; exact Or.inr (Or.inl rfl))
+    (by intro h; cases h) (by intro h; cases h) (by intro h; cases h)]
+  rfl
+
+/-- `[1, 0].all(v, v)`, `[1, 2].size()`, `f'n={1}'`, `match 1 { case int: 10, case _: 20 }` -/
+def allE : Ast := .member sp0 (.list sp0 [lit 1, lit 0]) [.access sp0 sp0 "all".toList, .call sp0 [var "v", var "v"]]
+def sizeM : Ast := .member sp0 (.list sp0 [lit 1, lit 2]) [.access sp0 sp0 "size".toList, .call sp0 []]
+def fstrE : Ast := .member sp0 (.fstr sp0 [.lit "n=".toList, .expr "1".toList (lit 1)]) []
+def matchT : Ast := .match_ sp0 (lit 1) [.mk sp0 (.type sp0 .int "int".toList) (lit 10), .mk sp0 (.any sp0) (lit 20)]
+
+theorem frag_allE : Frag2 demoB allE := by
+  refine .member _ _ _ (fun _ _ h => by cases h) ?_ (fun _ _ h => by cases h) (fun _ _ h => by cases h)
+    (fun _ _ h => by cases h) ?_ ?_ (by decide)
+  · intro sp' es h e he
+    cases h
+    simp only [List.mem_cons, List.mem_nil_iff, or_false] at he
+    rcases he with rfl | rfl <;> exact frag_lit _
+  · intro sp' args hm a ha
+    simp only [List.mem_cons, List.mem_nil_iff, or_false, MOp.call.injEq, reduceCtorEq, false_or] at hm
+    obtain ⟨_, rfl⟩ := hm
+    simp only [List.mem_cons, List.mem_nil_iff, or_false] at ha
+    rcases ha with rfl | rfl <;> exact frag_var _
+  · intro sp' e hm; simp at hm
+
+theorem frag_sizeM : Frag2 demoB sizeM := by
+  refine .member _ _ _ (fun _ _ h => by cases h) ?_ (fun _ _ h => by cases h) (fun _ _ h => by cases h)
+    (fun _ _ h => by cases h) ?_ ?_ (by decide)
+  · intro sp' es h e he
+    cases h
+    simp only [List.mem_cons, List.mem_nil_iff, or_false] at he
+    rcases he with rfl | rfl <;> exact frag_lit _
+  · intro sp' args hm a ha
+    simp only [List.mem_cons, List.mem_nil_iff, or_false, MOp.call.injEq, reduceCtorEq, false_or] at hm
+    obtain ⟨_, rfl⟩ := hm
+    cases ha
+  · intro sp' e hm; simp at hm
+
+theorem frag_fstrE : Frag2 demoB fstrE := by
+  refine .member _ _ _ (fun _ _ h => by cases h) (fun _ _ h => by cases h) (fun _ _ h => by cases h)
+    (fun _ _ h => by cases h) ?_ (fun _ _ h => by cases h) (fun _ _ h => by cases h) rfl
+  intro sp' segs h src e he
+  cases h
+  simp only [List.mem_cons, List.mem_nil_iff, or_false, reduceCtorEq, false_or, FSegAst.expr.injEq] at he
+  obtain ⟨_, rfl⟩ := he
+  exact frag_lit _
+
+theorem frag_matchT : Frag2 demoB matchT := by
+  refine .match_ _ _ _ (frag_lit 1) ?_ ?_ ?_
+  · intro sp' p b hm
+    simp only [List.mem_cons, List.mem_nil_iff, or_false, MCase.mk.injEq] at hm
+    rcases hm with ⟨_, _, rfl⟩ | ⟨_, _, rfl⟩ <;> exact frag_lit _
+  · intro sp' sp1 sp2 op e b hm
+    simp at hm
+  · intro sp' sp1 t name b hm
+    simp only [List.mem_cons, List.mem_nil_iff, or_false, MCase.mk.injEq, Pat.type.injEq, reduceCtorEq, false_and,
+      and_false] at hm
+    obtain ⟨_, ⟨_, _, rfl⟩, _⟩ := hm
+    rfl
+
+-- macros, method calls, f-strings and type patterns under `exec_correct2_partial`
+example : run demoB env0 allE = { res := .ok (.bool false), log := [] } := by
+  rw [exec_correct2_partial demoB_ok std0 frag_allE (by decide)]; rfl
+example : run demoB env0 sizeM = { res := .ok (.uint 2), log := [] } := by
+  rw [exec_correct2_partial demoB_ok std0 frag_sizeM (by decide)]; rfl
+example : run demoB env0 fstrE = { res := .ok (.str "n=int".toList), log := [] } := by
+  rw [exec_correct2_partial demoB_ok std0 frag_fstrE (by decide)]; rfl
+example : run demoB env0 matchT = { res := .ok (.int 10), log := [] } := by
+  rw [exec_correct2_partial demoB_ok std0 frag_matchT (by decide)]; rfl
+
+-- fold_call_sound_partial: `size([1, 2])` is evaluated by the compiler, to 2
+theorem size_folded : checkForConst demoB (["size".toList] ++ identsOfList [listLit [lit 1, lit 2]])
+    (callCode demoB "size".toList [listLit [lit 1, lit 2]]) = .const (.uint 2) := by
+  rfl
+example : runAt demoB 2 env0 (callCode demoB "size".toList [listLit [lit 1, lit 2]]) true [] =
+    { res := .ok (.uint 2), log := [] } :=
+  (fold_call_sound_partial demoB_ok std0 (b := 1)
+    (by intro a ha; simp only [List.mem_singleton] at ha; subst ha
+        exact frag_list (by intro e he; simp only [List.mem_cons, List.mem_nil_iff, or_false] at he
+                            rcases he with rfl | rfl <;> exact frag_lit _))
+    (by simp [macroShape]) (by decide) (by decide) size_folded []).1
 
 end
 
